@@ -17,6 +17,7 @@
 // EPIPE and the loop must return that error at once (a real-driver instance of C20).
 
 use std::os::unix::io::RawFd;
+use std::os::unix::thread::JoinHandleExt;
 use std::time::{Duration, Instant};
 use std::sync::mpsc::channel;
 use crate::keys::{Event, KeyCode, Layout, Repeat};
@@ -92,6 +93,7 @@ pub struct Segment { pub dev: char, pub writes: Vec<Vec<u8>>, pub pauses_us: Vec
 pub struct RunOut {
   pub out: Vec<u8>,
   pub stuck_unread: i32,        // bytes still unread on an input pipe when the run gave up waiting
+  pub stuck_tablet: bool,       // ... and some of them on the tablet-switch pipe
   pub status: String,           // what the loop returned after the closing EPIPE: "err:<msg>" | "ok" | "no-return" | "panic"
   pub late_extra: usize         // bytes that arrived after the expected output was complete
 }
@@ -116,6 +118,7 @@ pub fn run_real(layout: &Layout, segments: &[Segment], expect_len: usize, sentin
   });
   let mut out: Vec<u8> = Vec::new();
   let mut stuck = 0;
+  let mut stuck_tablet = false;
   let t0 = Instant::now();
   'segs: for seg in segments {
     let fd_w = if seg.dev == 'k' { kw } else { tw };
@@ -131,7 +134,7 @@ pub fn run_real(layout: &Layout, segments: &[Segment], expect_len: usize, sentin
       read_some(or, &mut out);
       let n = unread(fd_r);
       if n == 0 { break; }
-      if t0.elapsed() > patience { stuck = n; break 'segs; }
+      if t0.elapsed() > patience { stuck = n; stuck_tablet = seg.dev == 't'; break 'segs; }
       std::thread::yield_now();
     }
   }
@@ -141,7 +144,7 @@ pub fn run_real(layout: &Layout, segments: &[Segment], expect_len: usize, sentin
       read_some(or, &mut out);
       let n = unread(kr) + unread(tr);
       if n == 0 { break; }
-      if t0.elapsed() > patience { stuck = n; break; }
+      if t0.elapsed() > patience { stuck = n; stuck_tablet = unread(tr) > 0; break; }
       std::thread::yield_now();
     }
     if stuck == 0 {
@@ -169,7 +172,7 @@ pub fn run_real(layout: &Layout, segments: &[Segment], expect_len: usize, sentin
     unsafe { libc::close(kr); libc::close(tr); libc::close(ow); }
   }
   unsafe { libc::close(kw); libc::close(tw); }
-  RunOut { out, stuck_unread: stuck, status, late_extra }
+  RunOut { out, stuck_unread: stuck, stuck_tablet, status, late_extra }
 }
 
 pub fn marker_report(k: KeyCode) -> Vec<u8> {
@@ -310,9 +313,9 @@ fn sentinel_for(alphabet: &[KeyCode], layout: &Layout, not: Option<KeyCode>) -> 
 //   * the bytes are `wireOfTLog` (request E2ET) for SOME placement of timer ticks in the gaps in which a timer is armed;
 //   * the k-th chord after an arming press arrives no earlier than (time just before that press was written) + delay + k*interval;
 //   * the number of chords in a gap is at most what fits before the cancelling record was seen to have been read.
-struct TimedStep { dev: char, rec: Vec<u8>, arms: Option<(u64, u64)>, hold_ms: u64 }
+struct TimedStep { dev: char, rec: Vec<u8>, arms: Option<(u64, u64)>, hold_ms: u64, signal_after_ms: Option<u64> }
 
-fn timed_case(rng: &mut Rng) -> (Layout, Vec<TimedStep>, String) {
+fn timed_case(rng: &mut Rng, force_signal: bool) -> (Layout, Vec<TimedStep>, String) {
   use crate::keys::Mapping;
   use KeyCode::*;
   let d1 = [15u64, 25, 40][rng.below(3)]; let i1 = [8u64, 12, 20][rng.below(3)];
@@ -325,25 +328,44 @@ fn timed_case(rng: &mut Rng) -> (Layout, Vec<TimedStep>, String) {
   ] };
   let mut steps = Vec::new();
   let key = |rng: &mut Rng, k: KeyCode, v: i32| rec!(rng, 1, k as u16, v);
-  if rng.chance(1, 2) { steps.push(TimedStep { dev: 'k', rec: key(rng, LEFTCTRL, 1), arms: None, hold_ms: 0 }); }
+  if rng.chance(1, 2) { steps.push(TimedStep { dev: 'k', rec: key(rng, LEFTCTRL, 1), arms: None, hold_ms: 0, signal_after_ms: None }); }
   let r = rng.range(1, 3) as u64;
-  steps.push(TimedStep { dev: 'k', rec: key(rng, A, 1), arms: Some((d1, i1)), hold_ms: d1 + i1 * r + i1 / 2 });
-  let variant = rng.below(4);
+  steps.push(TimedStep { dev: 'k', rec: key(rng, A, 1), arms: Some((d1, i1)), hold_ms: d1 + i1 * r + i1 / 2, signal_after_ms: None });
+  let variant = if force_signal { 4 } else { rng.below(5) };
+  if variant == 4 {
+    // a signal interrupts the wait for the first chord (poll returns Interrupted; the loop must recompute the time left)
+    let d = [300u64, 400][rng.below(2)]; let iv = [150u64, 200][rng.below(2)];
+    let layout = Layout { mappings: vec![
+      Mapping { from: vec![A], to: vec![B], repeat: Repeat::Special { keys: chord.clone(), delay_ms: d as i32, interval_ms: iv as i32 }, ..Default::default() } ] };
+    let steps = vec![
+      TimedStep { dev: 'k', rec: key(rng, A, 1), arms: Some((d, iv)), hold_ms: d + iv + iv / 2, signal_after_ms: Some(d * 6 / 10) },
+      TimedStep { dev: 'k', rec: key(rng, A, 0), arms: None, hold_ms: 30, signal_after_ms: None } ];
+    return (layout, steps, format!("variant 4 (signal at {} ms) delay {} interval {} chord {:?}", d * 6 / 10, d, iv, chord));
+  }
   match variant {
     0 => {},
-    1 => { steps.push(TimedStep { dev: 'k', rec: key(rng, C, 1), arms: None, hold_ms: d1 + 2 * i1 }); },                    // any accepted key event cancels
+    1 => { steps.push(TimedStep { dev: 'k', rec: key(rng, C, 1), arms: None, hold_ms: d1 + 2 * i1, signal_after_ms: None }); },                    // any accepted key event cancels
     2 => { let on_hold = if rng.chance(1, 2) { 0 } else { d1 + 2 * i1 };      // On and Off in quick succession, or a stay in tablet mode
-           steps.push(TimedStep { dev: 't', rec: rec!(rng, 5, 1, 1), arms: None, hold_ms: on_hold });                   // so does tablet mode
-           steps.push(TimedStep { dev: 't', rec: rec!(rng, 5, 1, 0), arms: None, hold_ms: d1 + i1 }); },
-    _ => { steps.push(TimedStep { dev: 'k', rec: key(rng, E, 1), arms: Some((d2, i2)), hold_ms: d2 + i2 + i2 / 2 }); }       // a second Special mapping has its own schedule
+           steps.push(TimedStep { dev: 't', rec: rec!(rng, 5, 1, 1), arms: None, hold_ms: on_hold, signal_after_ms: None });                   // so does tablet mode
+           steps.push(TimedStep { dev: 't', rec: rec!(rng, 5, 1, 0), arms: None, hold_ms: d1 + i1, signal_after_ms: None }); },
+    _ => { steps.push(TimedStep { dev: 'k', rec: key(rng, E, 1), arms: Some((d2, i2)), hold_ms: d2 + i2 + i2 / 2, signal_after_ms: None }); }       // a second Special mapping has its own schedule
   }
-  steps.push(TimedStep { dev: 'k', rec: key(rng, A, 0), arms: None, hold_ms: d1 + 2 * i1 });
+  steps.push(TimedStep { dev: 'k', rec: key(rng, A, 0), arms: None, hold_ms: d1 + 2 * i1, signal_after_ms: None });
   (layout, steps, format!("variant {} delay {} interval {} (second mapping {} / {}) chord {:?}", variant, d1, i1, d2, i2, chord))
 }
 
-fn timed_runs(lean: &mut Lean, rng: &mut Rng, n: usize, findings: &mut Vec<serde_json::Value>, stats: &mut (u64, u64, u64)) {
-  for _ in 0..n {
-    let (layout, steps, descr) = timed_case(rng);
+extern "C" fn noop_handler(_: libc::c_int) {}
+
+fn timed_runs(lean: &mut Lean, rng: &mut Rng, n: usize, findings: &mut Vec<serde_json::Value>, stats: &mut (u64, u64, u64, u64)) {
+  unsafe {
+    // no SA_RESTART: epoll_wait must return EINTR
+    let mut sa: libc::sigaction = std::mem::zeroed();
+    sa.sa_sigaction = noop_handler as usize;
+    libc::sigemptyset(&mut sa.sa_mask);
+    libc::sigaction(libc::SIGUSR1, &sa, std::ptr::null_mut());
+  }
+  for run_i in 0..n {
+    let (layout, steps, descr) = timed_case(rng, run_i < 2);
     let layout_txt = fmt::layout(&layout);
     if lean.ask(&format!("L {}", layout_txt)) != "wf" { continue; }
     let (kr, kw) = pipe(true); let (tr, tw) = pipe(true); let (or, ow) = pipe(true);
@@ -359,6 +381,8 @@ fn timed_runs(lean: &mut Lean, rng: &mut Rng, n: usize, findings: &mut Vec<serde
     let mut written_at: Vec<u64> = Vec::new();               // just BEFORE each record was written
     let mut read_by: Vec<u64> = Vec::new();                  // when the record was seen to have been read
     let mut stuck = false;
+    let mut signal_sent_at: Option<u64> = None;
+    let mut worst_nap_us = 0u64;      // the harness's own 200 us naps: how late does this machine wake a thread right now?
     for st in &steps {
       written_at.push(t0.elapsed().as_micros() as u64);
       write_all(if st.dev == 'k' { kw } else { tw }, &st.rec);
@@ -368,10 +392,22 @@ fn timed_runs(lean: &mut Lean, rng: &mut Rng, n: usize, findings: &mut Vec<serde
         if t0.elapsed() > Duration::from_secs(10) { stuck = true; break; }
       }
       read_by.push(t0.elapsed().as_micros() as u64);
-      let until = Instant::now() + Duration::from_millis(st.hold_ms);
+      let started = Instant::now();
+      let until = started + Duration::from_millis(st.hold_ms);
+      let mut signalled = false;
       while Instant::now() < until {
         let before = out.len(); read_some(or, &mut out); if out.len() > before { arrivals.push((out.len(), t0.elapsed().as_micros() as u64)); }
+        if let Some(ms) = st.signal_after_ms {
+          if !signalled && started.elapsed() >= Duration::from_millis(ms) {
+            signalled = true;
+            signal_sent_at = Some(t0.elapsed().as_micros() as u64);
+            unsafe { libc::pthread_kill(th.as_pthread_t(), libc::SIGUSR1); }
+          }
+        }
+        let nap = Instant::now();
         std::thread::sleep(Duration::from_micros(200));
+        let over = nap.elapsed().as_micros() as u64;
+        if over > worst_nap_us { worst_nap_us = over; }
       }
     }
     unsafe { libc::close(or); }
@@ -435,6 +471,16 @@ fn timed_runs(lean: &mut Lean, rng: &mut Rng, n: usize, findings: &mut Vec<serde
               // loop writes the chord on every TimedOut without comparing the clock with next_wakeup: a chord can be up to
               // 1 ms early (never more: next_wakeup stays on the grid press + delay + k*interval, so nothing accumulates).
               // C11 is stated in milliseconds ("at most delay_ms", "once per interval_ms without drift"): 1 ms is allowed.
+              // after a signal: the loop must have recomputed the time left (poll returned Interrupted), not waited the whole
+              // timeout again.  Lateness is only judged when the machine is quiet (the harness's own naps overshoot by < 5 ms),
+              // and only against a bound of a third of the time that would be waited twice.
+              if let (Some(sig), Some(ms)) = (signal_sent_at, steps[j].signal_after_ms) {
+                if k == 0 && sig > written_at[j] && worst_nap_us < 5_000 {
+                  stats.3 += 1;
+                  let allowed = read_by[j] + 1000 * d + 1000 * ms / 3;
+                  if at > allowed { problem = Some(format!("a signal interrupted the wait for the first repeat chord {} ms after the press; the chord arrived at {} us, more than {} ms after its deadline {} us (the time already waited was waited again?)", ms, at, ms / 3, read_by[j] + 1000 * d)); }
+                }
+              }
               if at + 1000 < earliest { problem = Some(format!("repeat chord {} after the press written at {} us arrived at {} us, before its deadline {} us (delay {} ms, interval {} ms)", k, written_at[j], at, earliest, d, iv)); }
             }
           }
@@ -519,7 +565,8 @@ fn judge(layout: &Layout, case_log: &[LogItem], has_tablet: bool, model_hex: &st
   let own: &'static str = if tablet_in_log { "C12" } else { "C10" };
   if r.status == "panic" { return Some(Verdict { kind: "property", props: vec!["C14"], what: "the loop panicked".to_string() }); }
   if r.stuck_unread > 0 {
-    return Some(Verdict { kind: "property", props: vec!["C10"], what: format!("the loop stopped reading: {} bytes that had arrived (and were notified) stayed unread while it waited", r.stuck_unread) });
+    // an unread tablet-switch record is also C12's: the switch was flipped and the virtual keyboard is not silenced / resumed
+    return Some(Verdict { kind: "property", props: if r.stuck_tablet { vec!["C10", "C12"] } else { vec!["C10"] }, what: format!("the loop stopped reading: {} bytes that had arrived (and were notified) stayed unread while it waited{}", r.stuck_unread, if r.stuck_tablet { " (tablet-switch records among them)" } else { "" }) });
   }
   if r.out != expected {
     let reference = reference_batches(layout, case_log);
@@ -580,7 +627,7 @@ pub fn run(opts: &Opts) -> i32 {
     }
   }
 
-  let mut timed_stats = (0u64, 0u64, 0u64);
+  let mut timed_stats = (0u64, 0u64, 0u64, 0u64);
   {
     let n_timed = opts.num("timed", if thorough { 60 } else { 8 }) as usize;
     let before = findings.len();
@@ -624,7 +671,7 @@ pub fn run(opts: &Opts) -> i32 {
         kb.extend_from_slice(&record(&mut r11, 1, marker as u16, 1));
         let verdict: Option<Verdict> =
           if r.status == "panic" { Some(Verdict { kind: "property", props: vec!["C14"], what: "the loop panicked".to_string() }) }
-          else if r.stuck_unread > 0 { Some(Verdict { kind: "property", props: vec!["C10"], what: format!("the loop stopped reading: {} bytes that had arrived (and were notified) stayed unread while it waited", r.stuck_unread) }) }
+          else if r.stuck_unread > 0 { Some(Verdict { kind: "property", props: if r.stuck_tablet { vec!["C10", "C12"] } else { vec!["C10"] }, what: format!("the loop stopped reading: {} bytes that had arrived (and were notified) stayed unread while it waited{}", r.stuck_unread, if r.stuck_tablet { " (tablet-switch records among them)" } else { "" }) }) }
           else {
             let reply = lean.ask(&format!("E2EANY {} {} {}", hex(&kb), hex(&tb), hex(&r.out)));
             if reply == "ok" {
@@ -716,7 +763,7 @@ pub fn run(opts: &Opts) -> i32 {
     "cases": cases, "distinct_nontrivial": distinct.len(),
     "rule": "each case = one run of the REAL driver (mio/epoll poll, DevInputReader, TabletModeSwitchReader, DevInputWriter) around the real loop in its own thread over pipes: input_event records (key events of a semi-well-formed history over the layout's alphabet, surrounded by MSC_SCAN / SYN_REPORT / autorepeat / unknown-code / LED records; tablet-switch On/Off and foreign switch records in 2 of 5 runs) written in random chunks of whole records at random moments; half of the tablet runs are CONCURRENT (no waiting between the two devices: both become readable while the loop is busy, the output must be the model's for some interleaving of the two per-device logs, request E2EANY), the others synchronised at every change of device (the read order is the write order); the bytes read from the uinput pipe are compared with the model's wireOut; the run is closed by an EPIPE on the uinput pipe which the loop must return. non-trivial and distinct = distinct (layout, read log) with at least two sends",
     "records_written": records, "junk_records": junk, "writes": writes, "runs_with_two_or_more_writes": multi, "runs_with_a_chunk_over_8_records": big, "largest_chunk_records": max_chunk,
-    "runs_with_tablet_switch": tablet_runs, "concurrent_two_device_runs": concurrent_runs, "tablet_events": tablet_events, "output_bytes": out_bytes, "sends": sends, "tablet_records_compared_alone": tdec_checked, "full_buffer_runs": full_buffer_done, "timed_runs_on_the_real_clock": timed_stats.0, "chord_arrivals_checked_against_their_deadline": timed_stats.1, "chords_in_timed_runs": timed_stats.2,
+    "runs_with_tablet_switch": tablet_runs, "concurrent_two_device_runs": concurrent_runs, "tablet_events": tablet_events, "output_bytes": out_bytes, "sends": sends, "tablet_records_compared_alone": tdec_checked, "full_buffer_runs": full_buffer_done, "timed_runs_on_the_real_clock": timed_stats.0, "chord_arrivals_checked_against_their_deadline": timed_stats.1, "chords_in_timed_runs": timed_stats.2, "chords_after_a_signal_judged_for_lateness": timed_stats.3,
     "divergences": divergences, "monitor_violations": violations, "samples": samples, "findings": findings.len()
   });
   if let Some(p) = opts.get("stats") { std::fs::write(p, serde_json::to_string_pretty(&stats).unwrap()).unwrap(); }
